@@ -169,6 +169,14 @@ func genLogStreams(rt *rapid.T, w Win) []Strm {
 			out = append(out, s)
 		}
 	}
+	if m, ok := w.middleDay(); ok {
+		// a stream that exists only on a middle day of a window touching three or more UTC days
+		s := Strm{Tag: "mid", Labels: lbl("mid")}
+		if ts := used.near(m+r64(rt, 0, 3600, "midOff")*nsSec, 1, w.From, w.To-1); ts > 0 {
+			s.Smps = append(s.Smps, Smp{Ts: ts, M: mk(s.Tag, 0)})
+			out = append(out, s)
+		}
+	}
 	if some("pnear") {
 		s := Strm{Tag: "pnear", Labels: lbl("pnear")}
 		addTo(&s, w.From-1-r64(rt, 0, 60*nsSec, "pnb"))
@@ -494,6 +502,9 @@ func predLogs(c logsCase, o *evid.Obs) error {
 							c.Query, fmtTs(w.From), fmtTs(w.To), zoneNames[c.RZone], c.Cluster, fmtTs(sm.Ts), sm.M, describe(bs), sqlDump(stmts))
 					}
 					o.Tag("found-inside")
+					if bs.spec.Tag == "mid" {
+						o.Tag("middle-day-only:found")
+					}
 				case returned:
 					why := "lies outside the window"
 					if bs.spec.Metric {
